@@ -11,6 +11,7 @@ Each site gets a *line-free descriptor*: the operation plus its operands rendere
 variable names (MIR debug info) and the calls that produced them, e.g.
   `CheckedSub(headers.len(), last_n_count)`  /  `Index(headers, reorg_count)`  /  `expect(Storage::get(..))`.
 """
+import os
 import re
 from .cfg import locals_in
 from .defuse import DefUse
@@ -149,7 +150,8 @@ class Describer:
             for name, place in self.body.debug_all:
                 if place.strip() == pl:
                     return name
-            return '%s.%s' % (base, m.group(2))
+            fname = self._field_name(m.group(1).strip(), int(m.group(2)))
+            return '%s.%s' % (base, fname if fname else m.group(2))
         m = re.match(r'^\((.*) as (\w+)\)$', pl)
         if m:
             return self.place(m.group(1), depth)
@@ -160,6 +162,36 @@ class Describer:
             if place.strip() == pl:
                 return name
         return '_'
+
+    def _field_name(self, base_place, idx):
+        """Field name instead of the field index for the crate's own structs (engine.structs), so that inserting a field does
+        not rename every later field in the descriptors."""
+        from . import structs
+        repo = getattr(self.body, '_repo', None) or os.environ.get('VERIF_REPO') or '/repo'
+        bp = base_place
+        for _ in range(4):
+            m = re.fullmatch(r'\(\*(.*)\)', bp)
+            if not m:
+                break
+            bp = m.group(1).strip()
+        ty = None
+        m = re.fullmatch(r'_(\d+)', bp)
+        if m:
+            loc = int(m.group(1))
+            ty = self.body.locals.get(loc)
+            if ty is None:
+                for pl_, pt in self.body.params:
+                    if pl_ == loc:
+                        ty = pt
+        else:
+            m = re.match(r'^\(.*\.\d+: (.*)\)$', bp)
+            if m:
+                ty = m.group(1)
+        sn = structs.struct_of(ty) if ty else None
+        fields = structs.index(repo).get(sn) if sn else None
+        if fields and idx < len(fields):
+            return fields[idx]
+        return None
 
     def operand(self, op, depth=0):
         op = op.strip()
